@@ -87,6 +87,14 @@ def _guard_kind(test: ast.expr, X: str, S: str) -> str:
         f"not {S} < {X}[0]": "GStartLtFirst",           # positive form: NaN is refused
         f"not {X}[0] > {S}": "GStartLtFirst",
         f"not np.all(np.diff({X}) > 0)": "GIncreasing",
+        f"not (np.diff({X}) > 0).all()": "GIncreasing",
+        f"not np.all({X}[1:] > {X}[:-1])": "GIncreasing",
+        f"{X}[0] == 0.0": "GFirstNonZero",
+        f"0 == {X}[0]": "GFirstNonZero",
+        f"len({X}.shape) != 1": "GNdim1",
+        f"not {X}.ndim == 1": "GNdim1",
+        f"not {X}.size": "GNonEmpty",
+        f"{X}.size < 1": "GNonEmpty",
         f"{X}.ndim != 1": "GNdim1",
         f"{X}.size == 0": "GNonEmpty",
     }
